@@ -156,8 +156,11 @@ class var_induct(Tactic):
             raise NotImplementedError
         inst = matcher.first_order_match(th_args[0], var)
         inst[f.name] = P
+        # The goal itself may be an implication: take only as many
+        # assumptions as the induction rule has.
+        th_As, _ = th.prop.strip_implies()
         As, _ = th.prop.subst_norm(inst).strip_implies()
-        pts = [ProofTerm.sorry(Thm(A, goal.hyps)) for A in As]
+        pts = [ProofTerm.sorry(Thm(A, goal.hyps)) for A in As[:len(th_As)]]
         return ProofTerm("apply_induct", (th_name, var, goal.prop), pts)
 
 class rewrite_goal(Tactic):
